@@ -20,6 +20,8 @@ declare -A ONLY=(
  [C06-E]="" [C06-F]="" [C07-E]="" [C07-F]="" [C08-E]="" [C09-E]="" [C09-F]="" [C10-E]="" [C10-F]="" [C11-E]="" [C11-F]="" [C12-E]="" [C12-F]=""
  [C13-E]="" [C13-F]="" [C14-F]="" [C15-E]="" [C15-F]="" [C16-E]="" [C16-F]="" [C19-E]="" [C19-F]="" [C20-E]="" [C20-F]=""
  [C01-G]="" [C01-H]="" [C02-G]="" [C02-H]="" [C03-G]="" [C03-H]="" [C06-G]="" [C06-H]="" [C08-G]="" [C08-H]="" [C09-G]="" [C09-H]="" [C12-G]="" [C12-H]="" [C14-G]="" [C14-H]=""
+ [C04-H]="LockingAndxRequest" [C05-G]="OEM" [C05-H]="andx" [C07-G]="" [C07-H]="" [C10-G]="" [C10-H]="" [C11-G]="" [C11-H]="" [C13-G]="" [C13-H]="" [C15-G]="" [C15-H]=""
+ [C16-G]="" [C16-H]="" [C19-G]="" [C19-H]="" [C20-G]="" [C20-H]=""
 )
 REPO="${VERIF_REPO:-/repo}"
 seeds=("$@"); [ ${#seeds[@]} -eq 0 ] && seeds=($(printf '%s\n' "${!ONLY[@]}" | sort))
